@@ -393,11 +393,14 @@ def make_spec(rng, L, kind, st, base, frames_job=False):
         sma = rng.uniform(6.7e6, 4.3e7)
         coord = [rng.uniform(-3e3, 3e3) for _ in range(3)] + [rng.uniform(-3, 3) for _ in range(3)]
         mans = []
-        for _ in range(rng.choice([0, 0, 1, 2])):
+        for _ in range(rng.choice([0, 0, 1, 2, 3])):
             # one maneuver in five is dated exactly at the epoch ("burn now")
             t_us = 0 if rng.random() < 0.2 else rng.randrange(-3600 * US, 3600 * US)
             mans.append({"t_us": t_us, "dv": [rng.uniform(-0.5, 0.5) for _ in range(3)]})
-        mans.sort(key=lambda m: m["t_us"])
+        # the list is the caller's: in the order it was given (chronological or not -- what the results then mean is C16's
+        # subject; here the list, like the rest of the initial orbit, must come out of every call as it went in)
+        if rng.random() < 0.5:
+            mans.sort(key=lambda m: m["t_us"])
         spec.update(orientation=orient, sma=sma, coord=coord, mans=mans)
         return spec
     if kind.startswith("ephem"):
